@@ -634,7 +634,11 @@ class UpdGen:
             p = C(r.choice(P_IRI))
             where = {"t": "join", "ps": [{"t": "bgp", "tps": [[V("a"), p, V("b")]]}]}
             return {"form": "delete_insert_where", "del": [[V("a"), p, V("b"), DEFAULT_G]], "ins": [[V("b"), p, V("a"), DEFAULT_G]], "where": where}
-        where = g.group(r.choice([0, 1, 1, 2]))
+        if r.random() < 0.3:
+            ops = [o for o in Gen.OPS if o != "bind"]
+            where = g.nested(r.choice(ops), r.choice(ops))["p"]
+        else:
+            where = g.group(r.choice([0, 1, 1, 2]))
         scope = g.pvars(where)
         form = r.choice(["insert_where", "delete_where", "delete_insert_where"])
         op = {"form": form, "del": [], "ins": [], "where": where}
